@@ -137,11 +137,11 @@ Record ts_member := { tm_docs : list str; tm_readonly : bool; tm_key : str; tm_o
                       tm_type : texp; tm_null_union : bool }.
 Inductive ts_variant :=
 | TVUnit (docs : list str) (wire : str)
-| TVTuple (docs : list str) (wire : str) (ty : texp) (optional : bool)
+| TVTuple (docs : list str) (wire : str) (ty : texp) (optional : bool) (null_union : bool)
 | TVStruct (docs : list str) (wire : str) (ms : list ts_member).
 Inductive ts_decl :=
 | TSInterface (docs : list str) (name : str) (generics : list str) (ms : list ts_member)
-| TSAlias (docs : list str) (name : str) (generics : list str) (ty : texp) (or_undefined : bool)
+| TSAlias (docs : list str) (name : str) (generics : list str) (ty : texp) (or_undefined : bool) (null_union : bool)
 | TSConst (name : str) (ty : texp) (value : str)
 | TSUnitEnum (docs : list str) (name : str) (generics : list str) (vs : list (list str * str * str))  (* docs, case name, wire value *)
 | TSUnion (docs : list str) (name : str) (generics : list str) (tag content : str) (vs : list ts_variant).
@@ -171,7 +171,8 @@ Definition ts_member_of (generics : list str) (f : rfield) : TM ts_member :=
 Definition ts_variant_of (generics : list str) (unit_enum : bool) (v : rvariant) : TM ts_variant :=
   match v with
   | VUnit sh => ret (TVUnit (vcomments sh) (renamed (vid sh)))
-  | VTuple t sh => mdo ty <- ts_texp generics t; ret (TVTuple (vcomments sh) (renamed (vid sh)) ty (is_optional t))
+  (* typescript.rs:312 (write_enum_variants, tuple arm): `content?: T | null` for Option<Option<T>>, as in write_field *)
+  | VTuple t sh => mdo ty <- ts_texp generics t; ret (TVTuple (vcomments sh) (renamed (vid sh)) ty (is_optional t) (is_double_optional t))
   | VAnon fs sh => mdo ms <- mmapM (ts_member_of generics) fs; ret (TVStruct (vcomments sh) (renamed (vid sh)) ms)
   end.
 
@@ -182,7 +183,8 @@ Definition ts_decl_of (it : ritem) : TM ts_decl :=
     ret (TSInterface (scomments s) (renamed (sid s)) (sgenerics s) ms)
   | ItAlias a =>
     mdo ty <- ts_texp (agenerics a) (atype a);
-    ret (TSAlias (acomments a) (renamed (aid a)) (agenerics a) ty (is_optional (atype a)))
+    (* typescript.rs:169 write_type_alias: `T | null | undefined` for Option<Option<T>>, as in write_field *)
+    ret (TSAlias (acomments a) (renamed (aid a)) (agenerics a) ty (is_optional (atype a)) (is_double_optional (atype a)))
   | ItConst c =>
     mdo ty <- ts_texp [] (ctype c);
     ret (TSConst (str_to_uppercase uc (to_snake_case uc (renamed (cid c)))) ty (dec_of_Z (cvalue c)))
@@ -214,9 +216,10 @@ Definition ts_render_variant (tag content : str) (v : ts_variant) : str :=
   | TVUnit docs wire =>
     nl ++ ts_comments 1 docs ++ [ch_tab] ++ lit "| { " ++ tag ++ lit ": " ++ debug_str wire ++ lit ", " ++
     content ++ lit "?: undefined }"
-  | TVTuple docs wire ty opt =>
+  | TVTuple docs wire ty opt nullu =>
     nl ++ ts_comments 1 docs ++ [ch_tab] ++ lit "| { " ++ tag ++ lit ": " ++ debug_str wire ++ lit ", " ++
-    content ++ (if opt then lit "?" else []) ++ lit ": " ++ ts_show ty ++ lit " }"
+    content ++ (if opt then lit "?" else []) ++ lit ": " ++ ts_show ty ++
+    (if nullu then lit " | null" else []) ++ lit " }"
   | TVStruct docs wire ms =>
     nl ++ ts_comments 1 docs ++ [ch_tab] ++ lit "| { " ++ tag ++ lit ": " ++ debug_str wire ++ lit ", " ++
     content ++ lit ": {" ++ nl ++ List.concat (map ts_render_member ms) ++ lit "}" ++ lit "}"
@@ -227,8 +230,9 @@ Definition ts_render_decl (d : ts_decl) : str :=
   | TSInterface docs name gs ms =>
     ts_comments 0 docs ++ lit "export interface " ++ name ++ generics_suffix gs ++ lit " {" ++ nl ++
     List.concat (map ts_render_member ms) ++ lit "}" ++ nl ++ nl
-  | TSAlias docs name gs ty undef =>
+  | TSAlias docs name gs ty undef nullu =>
     ts_comments 0 docs ++ lit "export type " ++ name ++ generics_suffix gs ++ lit " = " ++ ts_show ty ++
+    (if nullu then lit " | null" else []) ++
     (if undef then lit " | undefined" else []) ++ lit ";" ++ nl ++ nl
   | TSConst name ty value =>
     lit "export const " ++ name ++ lit ": " ++ ts_show ty ++ lit " = " ++ value ++ lit ";" ++ nl
@@ -254,7 +258,7 @@ Definition ts_obs_member (m : ts_member) : member :=
 Definition ts_obs_variant (v : ts_variant) : variantd :=
   match v with
   | TVUnit docs wire => {| vd_name := wire; vd_wire := wire; vd_payload := PayUnit; vd_parent := None; vd_docs := docs |}
-  | TVTuple docs wire ty opt => {| vd_name := wire; vd_wire := wire; vd_payload := PayNewtype ty opt; vd_parent := None; vd_docs := docs |}
+  | TVTuple docs wire ty opt _ => {| vd_name := wire; vd_wire := wire; vd_payload := PayNewtype ty opt; vd_parent := None; vd_docs := docs |}
   | TVStruct docs wire ms => {| vd_name := wire; vd_wire := wire; vd_payload := PayInline (map ts_obs_member ms); vd_parent := None; vd_docs := docs |}
   end.
 Definition ts_obs (d : ts_decl) : decl :=
@@ -264,7 +268,7 @@ Definition ts_obs (d : ts_decl) : decl :=
   | TSInterface docs name gs ms =>
     {| d_kind := DStruct; d_name := name; d_escaped := false; d_generics := gs; d_docs := docs; d_members := map ts_obs_member ms;
        d_variants := []; d_tag_keys := []; d_content_keys := []; d_type := None; d_value := None |}
-  | TSAlias docs name gs ty undef =>
+  | TSAlias docs name gs ty undef _ =>
     {| d_kind := DAlias; d_name := name; d_escaped := false; d_generics := gs; d_docs := docs; d_members := [];
        d_variants := []; d_tag_keys := []; d_content_keys := []; d_type := Some ty; d_value := None |}
   | TSConst name ty value =>
